@@ -199,13 +199,26 @@ def flatten_concat(t):
     return [t]
 
 
+UNIQUE = [None]   # optional callable(z3 Int) -> int | None: "the path condition pins this term to exactly this value"
+_unique_memo: dict = {}
+
+
+def _concretise(t):
+    """t itself, or the integer literal the path condition pins it to (fixed-size fields: Length(x) == 128)"""
+    t = z3.simplify(t)
+    if z3.is_int_value(t) or UNIQUE[0] is None:
+        return t
+    v = UNIQUE[0](t)
+    return z3.IntVal(v) if v is not None else t
+
+
 def _part_len(p):
     k = p.decl().kind() if z3.is_app(p) else None
     if k == z3.Z3_OP_SEQ_UNIT:
         return z3.IntVal(1)
     if k == z3.Z3_OP_SEQ_EMPTY:
         return z3.IntVal(0)
-    return z3.Length(p)
+    return _concretise(z3.Length(p))
 
 
 def syntactically_nonneg(t):
@@ -255,11 +268,13 @@ def drop_prefix(parts, off):
         else:
             break
     if not z3.is_int_value(off) and ORACLE[0] is not None:
-        # concretise a small residual offset that is only known through the path condition
-        for kk in range(0, 4):
-            if _entails(off == kk):
-                off = z3.IntVal(kk)
-                break
+        # concretise a residual offset that is only known through the path condition
+        off = _concretise(off)
+        if not z3.is_int_value(off):
+            for kk in range(0, 4):
+                if _entails(off == kk):
+                    off = z3.IntVal(kk)
+                    break
     return parts, off
 
 
@@ -316,6 +331,9 @@ def smart_subseq(seq, start, length):
             if taken:
                 return z3.Concat(mk_concat(taken, seq.sort()), z3.SubSeq(mk_concat(rest_parts, seq.sort()), z3.IntVal(0), remaining)) \
                     if rest_parts else mk_concat(taken, seq.sort())
+        # a window that lies wholly inside the first remaining part: slice that part alone
+        if parts and _nonneg(off) and _nonneg(z3.simplify(length)) and _nonneg(z3.simplify(_part_len(parts[0]) - off - length)):
+            return z3.SubSeq(parts[0], off, z3.simplify(length))
         return z3.SubSeq(mk_concat(parts, seq.sort()), off, length)
     return z3.SubSeq(seq, start, length)
 
